@@ -1021,6 +1021,55 @@ BAD_ARGVS = [
     ['--skin-effect-conductivity=1e5,7'],                  # rc 23 invalid tag
     ['--insulation-load=0.0001,2'],                        # rc 23 radius too small
     ['-w', '4,0,0,0,1,0,0,0.001', '-w', '4,0,0,0,1,0,0,0.001', '--taper-wire', '9,1'],
+    # every early-exit path of main() is a different way of leaving state behind
+    ['--arc', '5,1,0,90'],                                 # arc parameter count
+    ['--arc', 'x,5,1,0,90,0.001'],                         # arc tag
+    ['--arc', '2,1,0,90,0.001'],                           # too few segments
+    ['--helix', 'aaa,40,0,.3,1e-3,0.11,0.11'],             # helix tag
+    ['--helix', '40,0.5'],                                 # helix parameter count
+    ['-w', 'q,4,0,0,0,1,0,0,0.001'],                       # wire tag
+    ['-w', '4,0,0,0,1,0,0,abc'],                           # wire value
+    ['-w', '1,4,0,0,0,1,0,0,0.001', '-w', '1,4,0,0,1,1,0,1,0.001'],   # duplicate tags
+    ['--geo-rotate', '1,2'],                               # transformation parameter count
+    ['--geo-rotate', '1,a,0,0'],
+    ['--geo-translate', '1,0,0'],
+    ['--geo-translate', '1,0,0,1,9'],                      # unknown tag
+    ['--geo-scale', '2,3,4'],
+    ['--geo-scale', 'x'],
+    ['--geo-scale', '2,7'],
+    ['--taper-wire', '1'],
+    ['--taper-wire', '1,x'],
+    ['--taper-wire', '1,7'],
+    ['--arc', '5,1,0,90,0.001', '--taper-wire', '1,1'],    # taper on something that is no wire
+    ['--excitation-pulse=1', '--excitation-pulse=2', '--excitation-voltage=1'],
+    ['--medium=1,2'],
+    ['--medium=a,b,c'],
+    ['--medium=13,0.005,1'],                               # first medium height
+    ['--medium=0,0,0', '--medium=13,0.005,0'],             # ideal ground with a successor
+    ['--medium=13,0.005,0', '--radial-count=8', '--radial-radius=0.001'],   # radials on a single medium
+    ['--excitation-pulse=a'],
+    ['--excitation-pulse=1,2,3'],
+    ['--rlc-load=a,b,c', '--attach-load=1,1'],
+    ['--trap-load=1,x,1e-10', '--attach-load=1,1'],
+    ['--laplace-load-a=x', '--attach-load=1,1'],
+    ['--laplace-load-b=1,y', '--attach-load=1,1'],
+    ['--laplace-load-a=0', '--laplace-load-b=1', '--attach-load=1,1'],
+    ['--load=50', '--attach-load=1'],
+    ['--load=50', '--attach-load=1,x'],
+    ['--load=50', '--attach-load=1,99'],
+    ['--skin-effect-conductivity=1,2,3'],
+    ['--skin-effect-resistivity=x'],
+    ['--skin-effect-resistivity=1e-8,9'],
+    ['--insulation-load=0.002'],
+    ['--insulation-load=0.002,3,9'],
+    ['--phi=0,10'],
+    ['--phi=a,b,c'],
+    ['--theta=a,b,c'],
+    ['--near-field=1,1,1,1,1,1,a,1,1'],
+    ['--near-field=x,1,1,1,1,1,1,1,1'],
+    ['--near-field=1,1,1,y,1,1,1,1,1'],
+    ['-w', '4,0,0,-1,0,0,5,0.001', '--medium=0,0,0'],      # wire below the ground
+    ['--near-field=1,1,1,1,1,1,1,1,1', '--option', 'far-field-absolute', '--ff-distance=0'],
 ]
 
 
